@@ -393,6 +393,8 @@ def correspondence(ctx):
             pairs.append((v, e, ks, kind))
 
     for c in load_corpus():
+        if c.get("kind", "print") != "print":
+            continue
         cc = c["case"]
         add(float(cc["v"]), float(cc["e"]), [(cc["style"], cc["mode"], cc["n"])], "corpus")
     for _ in range(n_pairs):
@@ -555,6 +557,174 @@ def check_text(s, style, mode, n, v, e):
     return None
 
 
+# ---- object-level histories: the same measurement printed, changed through every public path, printed again ------
+SINGLE_OPS = ["value", "error", "rel"]
+REPEATED_OPS = ["use_std", "use_eom", "use_ewm", "use_prop", "error", "rel", "value"]
+PRINT_ROUTES = ["str", "repr", "pve", "format", "array"]
+
+
+def gen_history(rng):
+    """{"obj": ["single", v, e] | ["repeated", [x..], [errs..] | None], "ops": [...]} ; a pool of two print
+    configurations so that the same configuration is used again after a modification"""
+    pool = [(rng.choice(STYLES), rng.choice(MODES), rng.randint(1, 6)) for _ in range(2)]
+    if rng.random() < 0.5:
+        v, e = gen_pair(rng)
+        obj = ["single", repr(v), repr(e)]
+        mods = SINGLE_OPS
+    else:
+        centre = gen_number(rng)
+        if centre == 0:
+            centre = 5.0
+        spread = abs(centre) * rng.choice([0.001, 0.01, 0.05, 0.3])
+        k = rng.randint(3, 7)
+        data = [float(dec(centre) + dec(spread) * F(rng.randint(-100, 100), 100)) for _ in range(k)]
+        if len(set(data)) < 2:
+            data[0] = float(dec(data[0]) + dec(spread))
+        errs = None
+        if rng.random() < 0.6:
+            errs = [float(dec(spread) * F(rng.randint(20, 150), 100)) for _ in range(k)]
+        obj = ["repeated", [repr(x) for x in data], [repr(x) for x in errs] if errs else None]
+        mods = REPEATED_OPS
+    ops = [["config"] + list(pool[0])]
+    for _ in range(rng.randint(4, 14)):
+        r = rng.random()
+        if r < 0.45:
+            ops.append(["print", rng.choice(PRINT_ROUTES)])
+        elif r < 0.85:
+            op = rng.choice(mods)
+            if op == "value":
+                ops.append(["value", repr(gen_number(rng))])
+            elif op == "error":
+                ops.append(["error", repr(gen_number(rng, True))])
+            elif op == "rel":
+                ops.append(["rel", repr(rng.choice([0.0, 0.001, 0.01, 0.05, 0.096, 0.1, 0.25, 0.5, 0.95, 2.0]))])
+            else:
+                ops.append([op])
+        else:
+            ops.append(["config"] + list(rng.choice(pool)))
+    ops.append(["print", rng.choice(PRINT_ROUTES)])
+    return {"obj": obj, "ops": ops}
+
+
+def run_history(h):
+    """-> list of records, one per op: {"op", "value", "error", "text" (for print), "exn"}; value/error are read through
+    the public properties after the op"""
+    import warnings
+    q = _q()
+    q.reset_default_configuration()
+    out = []
+    cfg = ("default", "auto", 1)
+    with warnings.catch_warnings():
+        warnings.simplefilter("ignore")
+        try:
+            try:
+                o = h["obj"]
+                if o[0] == "single":
+                    x = q.Measurement(float(o[1]), float(o[2]))
+                else:
+                    data = [float(t) for t in o[1]]
+                    x = q.Measurement(data, [float(t) for t in o[2]]) if o[2] else q.Measurement(data)
+            except Exception as ex:  # noqa
+                return [{"op": ["new"], "exn": "{}: {}".format(type(ex).__name__, str(ex)[:80])}]
+            consts = {}
+            if o[0] == "repeated":
+                import math
+                consts = {"std": x.std, "eom": x.error_on_mean, "ewm": x.error_weighted_mean, "prop": x.propagated_error}
+                consts = {k: (None if (isinstance(v, float) and math.isnan(v)) else float(v)) for k, v in consts.items()}
+            out.append({"op": ["new"], "value": x.value, "error": x.error, "consts": consts})
+            for op in h["ops"]:
+                rec = {"op": op}
+                try:
+                    k = op[0]
+                    if k == "config":
+                        cfg = (op[1], op[2], op[3])
+                        configure(*cfg)
+                    elif k == "print":
+                        if op[1] == "str":
+                            t = str(x)
+                        elif op[1] == "repr":
+                            m_ = re.match(r"^\w+\((.*)\)$", repr(x))
+                            t = m_.group(1) if m_ else repr(x)
+                        elif op[1] == "pve":
+                            t = x.print_value_error()
+                        elif op[1] == "format":
+                            t = "{}".format(x)
+                        else:   # another object printed in between must not matter
+                            str(q.MeasurementArray([1.0, 2.0], error=[0.1, 0.1]))
+                            t = x.print_value_error()
+                        rec["text"] = t
+                        rec["cfg"] = list(cfg)
+                    elif k == "value":
+                        x.value = float(op[1])
+                    elif k == "error":
+                        x.error = float(op[1])
+                    elif k == "rel":
+                        x.relative_error = float(op[1])
+                    elif k == "use_std":
+                        x.use_std_for_uncertainty()
+                    elif k == "use_eom":
+                        x.use_error_on_mean_for_uncertainty()
+                    elif k == "use_ewm":
+                        x.use_error_weighted_mean_as_value()
+                    elif k == "use_prop":
+                        x.use_propagated_error_for_uncertainty()
+                    else:
+                        raise ValueError("unknown op {}".format(op))
+                except AttributeError as ex:
+                    rec["skipped"] = str(ex)[:60]      # use_* after the value was overridden: no longer a repeated measurement
+                except Exception as ex:  # noqa
+                    rec["exn"] = "{}: {}".format(type(ex).__name__, str(ex)[:80])
+                rec["value"], rec["error"] = float(x.value), float(x.error)
+                out.append(rec)
+        finally:
+            q.reset_default_configuration()
+    return out
+
+
+def history_fails(h):
+    """None, or why some printed text of the history is not the object's CURRENT value and uncertainty, correctly rounded"""
+    recs = run_history(h)
+    for i, r in enumerate(recs):
+        if r["op"][0] == "new" and "exn" in r:
+            return None                      # the object could not be built: not a printing matter
+        if r["op"][0] != "print":
+            continue
+        if "exn" in r:
+            return "step {}: printing raised {}".format(i, r["exn"])
+        style, mode, n = r["cfg"]
+        v, e = r["value"], r["error"]
+        if not (e >= 0) or v != v or not in_domain(style, mode, n, v, e):
+            continue
+        why = check_text(r["text"], style, mode, n, v, e)
+        if why:
+            return "step {} ({}): the object holds {!r} +/- {!r}; {}".format(i, "/".join(r["op"]), v, e, why)
+    return None
+
+
+def shrink_history(h):
+    ops = core.shrink_list(h["ops"], lambda o: history_fails(dict(h, ops=o)) is not None)
+    best = dict(h, ops=ops)
+    # simpler object
+    for cand in ([["single", "5.0", "0.5"]] if h["obj"][0] == "single" else
+                 [["repeated", ["5.0", "5.2", "4.9", "5.1"], None], ["repeated", h["obj"][1], None]]):
+        c = dict(best, obj=cand)
+        try:
+            if history_fails(c):
+                best = c
+                break
+        except Exception:  # noqa
+            pass
+    # simpler configurations
+    for i, op in enumerate(best["ops"]):
+        if op[0] == "config":
+            for cfgc in (["config", "default", "auto", 1], ["config", "default", op[2], op[3]], ["config", op[1], op[2], 1]):
+                c = dict(best, ops=best["ops"][:i] + [cfgc] + best["ops"][i + 1:])
+                if history_fails(c):
+                    best = c
+                    break
+    return best
+
+
 def in_domain(style, mode, n, v, e):
     fv, fe = dec(v), dec(e)
     for x in (fv, fe):
@@ -640,7 +810,7 @@ def search(ctx, suspects, budget):
         c = s.get("case")
         if c and "style" in c:
             todo.append({k: c[k] for k in ("style", "mode", "n", "v", "e")})
-    todo += [c["case"] for c in load_corpus()]
+    todo += [c["case"] for c in load_corpus() if c.get("kind", "print") == "print"]
     configs = all_configs()
     tried = 0
     small = list(small_scope(ctx.n(9, 1)))
@@ -665,6 +835,27 @@ def search(ctx, suspects, budget):
         n_pow += 1
         report(case_of(st, mo, n, v, e))
     ctx.notes.append("oracle: {} deterministic cases (powers of ten at every exponent, ends of the magnitude range)".format(n_pow))
+    # object-level histories (print, modify through every public path, print again), a fixed number per run
+    n_hist = 0
+    hs = [s_["case"] for s_ in suspects if s_.get("kind") == "history" and s_.get("case")]
+    hs += [c["case"] for c in load_corpus() if c.get("kind") == "history"]
+    for i in range(ctx.n(400, 6000)):
+        hs.append(None)
+    for h in hs:
+        if len(out) >= 3:
+            break
+        if h is None:
+            h = gen_history(rng)
+        n_hist += 1
+        why = history_fails(h)
+        if why:
+            small_h = shrink_history(h)
+            why = history_fails(small_h) or why
+            key = "history:" + re.sub(r"[-\d.]+", "#", why)[:60]
+            if key not in seen:
+                seen.add(key)
+                out.append(Violation(ID, "history", small_h, why))
+    ctx.notes.append("oracle: {} object histories".format(n_hist))
     while len(out) < 3:
         if todo:
             cases = [todo.pop(0)]
@@ -684,5 +875,8 @@ def search(ctx, suspects, budget):
 
 
 def replay(ctx, v):
+    if v["kind"] == "history":
+        why = history_fails(v["case"])
+        return Violation(ID, v["kind"], v["case"], why) if why else None
     why = fails(v["case"])
     return Violation(ID, v["kind"], v["case"], why) if why else None
